@@ -46,6 +46,16 @@ ben("report_writes_temp_then_renames_and_keeps_log", ["C16", "C12"], "atomic rep
      ("conditionalrewards.py", "            file.write(f\"Total time              : {total_time}\\n\")\n",
       "            file.write(f\"Total time              : {total_time}\\n\")\n    os.replace(f\"outputs/{file_name}.txt.part\", f\"outputs/{file_name}.txt\")\n")])
 
+ben("generator_removes_partial_file_on_ctrl_c", ["C11", "C15", "C17"], "Ctrl-C while writing: the partial file is removed and the interrupt re-raised (a kill leaves the torn file, as before)",
+    [("roberta_generator.py", "    my_file = open(file_name, \"w\")\n\n    write_preamble(my_file, length, width, moves, rewards, loose_tiles)\n    write_robot_A(my_file, length, width, moves, rewards, loose_tiles, prob_tile_break)\n    write_robot_B(my_file, length, width, moves, rewards, loose_tiles, prob_tile_break,\n                  prob_robot_break)\n    write_robot_C(my_file, length, width, moves, rewards, loose_tiles, prob_tile_break,\n                  prob_robot_break, prob_light_break)\n    my_file.close()\n",
+      "    import os\n    my_file = open(file_name, \"w\")\n    try:\n        write_preamble(my_file, length, width, moves, rewards, loose_tiles)\n        write_robot_A(my_file, length, width, moves, rewards, loose_tiles, prob_tile_break)\n        write_robot_B(my_file, length, width, moves, rewards, loose_tiles, prob_tile_break,\n                      prob_robot_break)\n        write_robot_C(my_file, length, width, moves, rewards, loose_tiles, prob_tile_break,\n                      prob_robot_break, prob_light_break)\n    except KeyboardInterrupt:\n        my_file.close()\n        os.remove(file_name)\n        raise\n    my_file.close()\n")])
+ben("solver_cli_own_sigint_handler_and_exit_hook", ["C16", "C12"], "main() installs a SIGINT handler that exits with status 130 and an atexit hook that only logs",
+    [("conditionalrewards.py", "    parser = init_parser()\n    parsed_args = parser.parse_args()\n    set_logger(parsed_args.log_level)\n",
+      "    import atexit, signal, sys\n\n    def _on_sigint(signum, frame):\n        logging.error(\"interrupted\")\n        sys.exit(130)\n    signal.signal(signal.SIGINT, _on_sigint)\n    atexit.register(logging.debug, \"conditionalrewards finished\")\n    parser = init_parser()\n    parsed_args = parser.parse_args()\n    set_logger(parsed_args.log_level)\n")])
+ben("report_closed_by_exit_stack", ["C16", "C12"], "report written through contextlib.ExitStack; recursion limit raised and cwd-independent os calls at start-up",
+    [("conditionalrewards.py", "    with open(f\"outputs/{file_name}.txt\", \"w\") as file:\n        for name, game in game_resuts.items():",
+      "    import contextlib, sys\n    sys.setrecursionlimit(max(sys.getrecursionlimit(), 5000))\n    with contextlib.ExitStack() as stack:\n        file = stack.enter_context(open(f\"outputs/{file_name}.txt\", \"w\"))\n        for name, game in game_resuts.items():")])
+
 
 ben("paths_relative_to_script_directory", ["C16", "C12", "C11", "C17"], "outputs/ and inputs/ located next to the program file instead of the working directory (the same place in `cd repo && python tool.py`)",
     [("conditionalrewards.py", "    with open(f\"outputs/{file_name}.txt\", \"w\") as file:", "    import os\n    here = os.path.dirname(os.path.abspath(__file__))\n    with open(os.path.join(here, \"outputs\", f\"{file_name}.txt\"), \"w\") as file:"),
